@@ -33,7 +33,7 @@ TInit ==
   /\ accts = {} /\ bal = [a \in Addr |-> 0] /\ supply = 0 /\ mint = NoMint
   /\ allow = [p \in Pairs |-> NoAllow] /\ ov = {} /\ sv = {}
   /\ now = [h |-> 0, t |-> 0] /\ out = <<>> /\ maxAmt = -1
-  /\ credit = [p \in Pairs |-> 0] /\ migrated = TRUE
+  /\ credit = [p \in Pairs |-> 0] /\ migrated = TRUE /\ mk = NoMk
   /\ ev = [act |-> "init", ok |-> TRUE, anom |-> <<>>]
 
 TNext ==
@@ -49,6 +49,7 @@ TNext ==
      /\ ov' = View4(e.obs.byOwner)
      /\ sv' = View4(e.obs.bySpender)
      /\ migrated' = e.obs.migrated
+     /\ mk' = e.obs.mk
      /\ now' = e.now
      /\ out' = e.out
      /\ maxAmt' = IF e.act = "reset" THEN e.cfg.maxAmt ELSE maxAmt
@@ -82,6 +83,11 @@ T_C13_HandOverExact == [][C13_HandOverExact]_tv
 T_C13_RenounceForever == [][C13_RenounceForever]_tv
 T_C13_Init == [][C13_Init]_tv
 
+T_X20_MarketingWriters == [][X20_MarketingWriters]_tv
+T_X20_UpdateMarketingExact == [][X20_UpdateMarketingExact]_tv
+T_X20_UploadLogoExact == [][X20_UploadLogoExact]_tv
+T_X20_TokenUntouched == [][X20_TokenUntouched]_tv
+T_X20_Init == [][X20_Init]_tv
 T_C19_MigrateKeeps == [][C19_MigrateKeeps]_tv
 T_C19_OnlyMigrateMigrates == [][C19_OnlyMigrateMigrates]_tv
 
